@@ -323,6 +323,113 @@ def exportHdf5 [Inhabited α] (src : Src α) (o : Opts) (mask : List Bool) (feat
 
 def read (fl : File α) (f : String) : List α := readEv fl.events f
 
+/-! ## the requested feature list -/
+
+/-- `if features is None: features = ds.features_innate` -/
+def reqFeats (req : Option (List String)) (innate : List String) : List String :=
+  match req with
+  | some fs => fs
+  | none => innate
+
+/-! ## the output directory
+
+`Export.hdf5` raises `OSError` when the output path exists and `override` is off, removes an
+existing file otherwise (`path.unlink()`), and then opens the path with `RTDCWriter(path,
+mode="append")`.  An append-mode writer *extends* whatever the file already contains, so the
+`unlink` is what makes the result independent of the history of the output directory (earlier
+exports to the same path that completed, raised, or were killed half-way). -/
+
+def emptyFile : File α :=
+  { events := [], eventCount := 0, derivedRunId := false, cfg := [], logs := [], tables := [] }
+
+/-- `RTDCWriter.write_text`, append mode: the lines are appended to an existing log of that name -/
+def appendLog (logs : List (String × List String)) (name : String) (lines : List String) :
+    List (String × List String) :=
+  match logs with
+  | [] => [(name, lines)]
+  | (n, l) :: t => if n = name then (n, l ++ lines) :: t else (n, l) :: appendLog t name lines
+
+/-- the loop `for log in ds.logs: hw.store_log(prefix + log, ds.logs[log])` -/
+def appendLogs (logs new : List (String × List String)) : List (String × List String) :=
+  new.foldl (fun acc l => appendLog acc l.1 l.2) logs
+
+def findLog (logs : List (String × List String)) (name : String) : Option (List String) :=
+  match logs with
+  | [] => none
+  | (n, l) :: t => if n = name then some l else findLog t name
+
+/-- `prefix + name` for every log / table of the source -/
+def prefixed {β : Type} (pfx : String) (xs : List (String × β)) : List (String × β) :=
+  xs.map fun x => (pfx ++ x.1, x.2)
+
+/-- the body of `Export.hdf5` from `with RTDCWriter(path, mode="append")` on, for a file that
+already has the content `old` (attributes are overwritten key by key, feature datasets and
+logs are appended to) -/
+def exportOnto [Inhabited α] (src : Src α) (o : Opts) (mask : List Bool) (feats : List String)
+    (old : File α) : Option (File α) :=
+  let fs := normFeats feats
+  match lookupAll src fs with
+  | none => none
+  | some fts =>
+    let em := effMask src o mask fts
+    match storeAll src o em fs old.events with
+    | none => none
+    | some ev =>
+      let metaCount := match em with
+        | some m => if o.fixed then countTrue m else src.n
+        | none => src.n
+      let count := match firstSorted ev with
+        | some (_, rows) => rows.length
+        | none => metaCount
+      let cfg := src.cfg.filter (fun e => o.cfgSections.contains e.1)
+      some { events := ev
+             eventCount := count
+             derivedRunId := o.filtered
+             cfg := cfg ++ old.cfg.filter (fun e => !(cfg.any fun c => c.1 = e.1 ∧ c.2.1 = e.2.1))
+             logs := appendLogs old.logs (if o.logs then prefixed o.pfx src.logs else [])
+             tables := old.tables ++ (if o.tables then prefixed o.pfx src.tables else []) }
+
+/-- the files of the output directory, by name -/
+abbrev Dir (α : Type) := List (String × File α)
+
+def dirGet (d : Dir α) (p : String) : Option (File α) :=
+  match d with
+  | [] => none
+  | (q, f) :: t => if q = p then some f else dirGet t p
+
+def dirErase (d : Dir α) (p : String) : Dir α := d.filter (fun e => e.1 ≠ p)
+
+def dirSet (d : Dir α) (p : String) (f : File α) : Dir α := (p, f) :: dirErase d p
+
+inductive Outcome (α : Type) where
+  | done (d : Dir α)          -- the directory after a successful export
+  | exists_                   -- `OSError("File already exists")`, nothing touched
+  | failed                    -- the export itself raised
+
+/-- `Export.hdf5(path, override=…)` in the directory `d` -/
+def exportAt [Inhabited α] (d : Dir α) (path : String) (override : Bool) (src : Src α) (o : Opts)
+    (mask : List Bool) (feats : List String) : Outcome α :=
+  if !override && (dirGet d path).isSome then .exists_
+  else
+    -- `elif path.exists(): path.unlink()`
+    let d1 := if (dirGet d path).isSome then dirErase d path else d
+    -- `RTDCWriter(path, mode="append")` opens what is there
+    match exportOnto src o mask feats ((dirGet d1 path).getD emptyFile) with
+    | some fl => .done (dirSet d1 path fl)
+    | none => .failed
+
+/-- a *variant* that is not dclab's: "atomic" output through the neighbour `path~` (append-mode
+writer on the temporary name, rename on success) without removing a temporary file that is
+already there -/
+def exportAtTemp [Inhabited α] (d : Dir α) (path : String) (override : Bool) (src : Src α)
+    (o : Opts) (mask : List Bool) (feats : List String) : Outcome α :=
+  if !override && (dirGet d path).isSome then .exists_
+  else
+    let tmp := path ++ "~"
+    match exportOnto src o mask feats ((dirGet d tmp).getD emptyFile) with
+    | some fl => .done (dirSet (dirErase d tmp) path fl)      -- `path_temp.replace(path)`
+    | none => .failed
+
 /-! ## `Export.tsv` -/
 
 /-- transpose of equally long columns (`np.array(data).transpose()`) -/
@@ -360,5 +467,45 @@ def tsvChunksSizeTest {β : Type} (c n : Nat) (idx : List Nat) (rowAt : Nat → 
   let nfull := idx.length / c
   ((List.range nfull).map fun kk => ((idx.take (c * (kk + 1))).drop (c * kk)).map rowAt) ++
     (if n % c ≠ 0 then [(idx.drop (c * nfull)).map rowAt] else [])
+
+/-! ## the text of a `.tsv` export
+
+A line is either a comment (`# …`, written with `fd.write`) or a data line (`np.savetxt`: the
+cells of one row, formatted and tab-separated).  Joining / splitting at tabs is not modelled: a
+data line is the list of its cells. -/
+
+inductive Line where
+  | comment (cells : List String)      -- `"# " + "\t".join(cells)`
+  | data (cells : List String)
+  deriving DecidableEq, Repr
+
+/-- `Export.tsv`: metadata / configuration comments, `# <names>`, `# <labels>`, then one data line
+per row of the table; `fmt` is `"%.10e" % x`, `label` is `dfn.get_feature_label` -/
+def tsvText (fmt : α → String) (label : String → String) (metaLines : List (List String))
+    (src : Src α) (filtered : Bool) (mask : List Bool) (feats : List String) : Option (List Line) :=
+  match tsvRows src filtered mask feats with
+  | none => none
+  | some (hdr, rows) =>
+    some (metaLines.map .comment ++ [.comment hdr, .comment (hdr.map label)] ++
+      rows.map fun r => .data (r.map fmt))
+
+/-- the same text written by a memory-saving loop: the data lines go out in chunks of `c` rows -/
+def tsvTextChunked (c : Nat) (fmt : α → String) (label : String → String)
+    (metaLines : List (List String)) (hdr : List String) (idx : List Nat) (rowAt : Nat → List α) :
+    List Line :=
+  metaLines.map .comment ++ [.comment hdr, .comment (hdr.map label)] ++
+    ((tsvChunks c idx rowAt).map fun ch => ch.map fun r => Line.data (r.map fmt)).flatten
+
+/-- what a reader does: data lines are the lines that are not comments; the column names are the
+last but one comment line, the labels the last one -/
+def dataCells : List Line → List (List String)
+  | [] => []
+  | .comment _ :: t => dataCells t
+  | .data c :: t => c :: dataCells t
+
+def commentCells : List Line → List (List String)
+  | [] => []
+  | .comment c :: t => c :: commentCells t
+  | .data _ :: t => commentCells t
 
 end DclabModel.Export
